@@ -191,14 +191,29 @@ def register(PROPS, COMPONENTS):
                    "access is made under the wrapper's mutex (writes exclusively), exclusive holders exclude every other holder, no "
                    "access by another thread is accepted while a thread holds an exclusive handle or is inside a modifying operation, "
                    "no step of another thread changes the value or takes the lock away (no lost update), an idle thread holds nothing "
-                   "(no leaked lock), a holder always has an enabled step and a blocked acquirer is enabled once the mutex is free." + LF_TIE,
+                   "(no leaked lock), a holder always has an enabled step and a blocked acquirer is enabled once the mutex is free. "
+                   "Liveness without any fairness assumption (Proof/LockFamLive.lean, Base/Live.lean; environment events = the client's "
+                   "decisions: calls, the handle operations it chooses while it keeps a handle, accesses/throws of client code, the "
+                   "final observation): C01_terminates — no infinite execution with finitely many environment events (every library "
+                   "step, failed try_lock and time-out included, lowers a rank); C01_progress_cases / C01_progress / "
+                   "C01_stuck_means_client_holds — in every reachable state some thread has a library step nobody can disable, or the "
+                   "mutex is free and every waiting acquirer can take it, or every holder is a client whose move it is (a handle kept "
+                   "between operations, or client code inside an incomplete bracket) and everybody else inside an operation waits for "
+                   "it; hence every maximal execution with finitely many client decisions ends with every thread returned unless a "
+                   "client keeps a handle for ever (C01_stuck_no_client_all_returned)." + LF_TIE,
         level_note="Trusted: Lean kernel (+propext, Classical.choice, Quot.sound), the primitive semantics of the mutexes, shim + "
-                   "scheduler + driver glue. Partial: 'every blocked acquirer proceeds' is proved as deadlock-freedom facts (L2, L4); "
-                   "the fair-scheduler termination step is not mechanised.",
+                   "scheduler + driver glue. 'Every blocked acquirer proceeds once the current holder releases' is proved as "
+                   "deadlock-freedom (L2, L4, C01_progress_cases) plus fairness-free termination (C01_terminates). The model is the weakest "
+                   "discipline: it does not know which side a whole-object operation locks nor how many reads a bracket body makes, so "
+                   "body accesses count as environment events and 'enabled' for a waiting whole-object operation means 'on some side'; "
+                   "C01_free_waiting_enabled gives both sides when the mutex is free. Not proved: that ONE particular waiter is "
+                   "eventually chosen when other threads keep acquiring for ever (needs a fair mutex, which C++ does not promise).",
         trusted_base=LF_TRUST, assumptions=LF_ASSUME,
-        partial=["'every blocked acquirer proceeds once the current holder releases' is proved as L2 (holder always enabled) + L4 "
-                 "(acquirer enabled when the mutex is free); fair termination not mechanised; writer starvation by readers is not "
-                 "excluded (the property does not claim it)"],
+        partial=["'every blocked acquirer proceeds once the current holder releases' is proved as deadlock-freedom (L2, L4, "
+                 "C01_progress_cases, C01_stuck_means_client_holds) and termination of every execution with finitely many client "
+                 "decisions under EVERY scheduler (C01_terminates); not proved: starvation-freedom of one particular acquirer when "
+                 "other threads make infinitely many acquisitions under an unfair mutex or scheduler (C++ mutexes are not fair); "
+                 "writer starvation by readers is not excluded (the property does not claim it)"],
     )
     PROPS["C02"] = dict(
         lean_files=["ConcVerif/Props/C02.lean"], components=["lockfam"], stage="B",
